@@ -65,7 +65,7 @@ func checkC08(c *Ctx) {
 	r := c.Rep
 	p := c.Prog
 	r.Explain = "The numeric abstract interpreter evaluates every Marshal method of the package — the 15 packet types and, as roots of their own with an unconstrained receiver, every helper encoder (ReceptionReport, SDES chunk/item, TWCC chunks and deltas, CCFB blocks, Header) — on all field values and list lengths. Inside a packet-level root the (effect-free) helper encoders are opaque: their result and error are unconstrained, so the packet-level rules only rely on how the error is handled. C08-NARROW: every fixed-width operation that can lose information — a conversion to a narrower integer type, fixed-width arithmetic that can wrap, a low-bit mask x&(2^k-1) — is an obligation per calling context (call-site sensitive call string): the operand must be entailed to fit at the operation, or be a byte extraction whose dropped bits are emitted by a sibling conversion of the same value (x>>8k family), or its pre-operation value (kept in a ghost that is re-assigned at every execution and starts at 0) must be entailed to fit at every return of the root whose error is nil. C08-ERR: in every function of the universe, at every return whose own error result is nil, the error result of every call made by that function is entailed to be nil (no dropped error); error results read as 'nil if the call has not executed yet'. Together: a nil error from a packet's Marshal implies a nil error from every helper it called, and a nil error from any encoder implies that none of its narrowing operations lost information."
-	r.RuleText = "C08-NARROW (per instruction and call string), C08-ERR (per call returning an error), C08-ROOT anchors. Undecided = failure. Frozen tables: signed wire units (c08SignedWire), index arithmetic confirmed by reading (c08Triaged: 2 entries keyed by root and function, each must match an undecided site)."
+	r.RuleText = "C08-NARROW (per instruction and call string), C08-ERR (per call returning an error), C08-LIMIT (a value exactly at a wire limit is not rejected on every path), C08-ROOT anchors. Undecided = failure. Frozen tables: signed wire units (c08SignedWire), index arithmetic confirmed by reading (c08Triaged: 2 entries keyed by root and function, each must match an undecided site)."
 	r.Trusted = []string{"go/ssa, VTA call graph", "numeric engine checker/num (exact fixed-width semantics with wrap atoms)", "effects analysis (purity of the opaque helper encoders, determinism of the size functions)", "models of encoding/binary, copy, append, math"}
 	r.Assume = []string{
 		fmt.Sprintf("size domain: the encoding fits one datagram (MarshalSize(), wireSize() <= %d bytes) and the arithmetic of the size computations (functions reachable from a MarshalSize method) does not wrap; a wrapped size makes the copies into the buffer panic, which is not a silent success", c05MaxBytes),
@@ -73,7 +73,7 @@ func checkC08(c *Ctx) {
 	}
 	r.NotCov("values derived from floating-point arithmetic (REMB mantissa/exponent packing): the integer engine does not model floats; such sites are listed as not covered, not as discharged")
 	r.NotCov("bit-field overlap of OR-ed operands (a 5-bit count OR-ed next to the padding bit) is a bit-provenance question (C16), not a narrowing operation")
-	r.NotCov("acceptance of values exactly at a limit (no over-rejection) is not decided")
+	r.NotCov("acceptance at the limits is decided only as 'not rejected on every path' for the limits of c08LimitTable (C08-LIMIT); that such a value is encoded correctly is C03/C05")
 
 	ts := c05Types(c)
 	var mu sync.Mutex
@@ -227,6 +227,7 @@ func checkC08(c *Ctx) {
 		}
 	}
 	r.Infof("%d narrowing sites lie in the size computations (MarshalSize universe) and are covered by the size-domain assumption", nAssumed)
+	c08Limits(c, sizeFns, isMS, wsFn)
 	sort.Strings(errOrder)
 	for _, k := range errOrder {
 		o := errObls[k]
@@ -685,4 +686,116 @@ func maskOrigin(rec *num.NarrowRec) (owner, origin string) {
 		}
 	}
 	return "", ""
+}
+
+// c08LimitTable: the wire limits of the property statement. For each, the encoder is analysed with the
+// field fixed to the limit value; if every return then carries a provably non-nil error the limit value
+// is rejected (over-rejection).
+var c08LimitTable = []struct {
+	root  string // function spec
+	field string
+	kind  string // "len" | "val"
+	limit int64
+	what  string
+}{
+	{"SenderReport.Marshal", "Reports", "len", 31, "31 reception reports"},
+	{"ReceiverReport.Marshal", "Reports", "len", 31, "31 reception reports"},
+	{"SourceDescription.Marshal", "Chunks", "len", 31, "31 SDES chunks"},
+	{"Goodbye.Marshal", "Sources", "len", 31, "31 sources"},
+	{"Goodbye.Marshal", "Reason", "len", 255, "a 255-octet reason"},
+	{"SourceDescriptionItem.Marshal", "Text", "len", 255, "a 255-octet SDES text"},
+	{"ReceptionReport.Marshal", "TotalLost", "val", 1<<24 - 1, "cumulative lost 2^24-1"},
+	{"ReceiverEstimatedMaximumBitrate.Marshal", "SSRCs", "len", 255, "255 REMB SSRCs"},
+	{"CCFeedbackReportBlock.marshal", "MetricBlocks", "len", 16384, "16384 metric blocks"},
+	{"ApplicationDefined.Marshal", "Name", "len", 4, "a 4-octet APP name"},
+	{"Header.Marshal", "Count", "val", 31, "header count 31"},
+	{"ApplicationDefined.Marshal", "SubType", "val", 31, "APP subtype 31"},
+}
+
+func c08Limits(c *Ctx, sizeFns, isMS map[*ssa.Function]bool, wsFn *ssa.Function) {
+	r := c.Rep
+	p := c.Prog
+	if os.Getenv("C05_ONLY") != "" {
+		return
+	}
+	type res struct {
+		ok         bool
+		nret, nerr int
+		fatal      string
+	}
+	out := make([]res, len(c08LimitTable))
+	parallelFor(len(c08LimitTable), func(i int) {
+		lt := c08LimitTable[i]
+		fn := p.Func(lt.root)
+		if fn == nil {
+			out[i].fatal = "unresolved anchor: " + lt.root
+			return
+		}
+		recv := fn.Params[0]
+		idx := structFieldIndex(recv.Type(), lt.field)
+		if pt, ok := recv.Type().Underlying().(*types.Pointer); ok {
+			idx = structFieldIndex(pt.Elem(), lt.field)
+		}
+		if idx < 0 {
+			out[i].fatal = fmt.Sprintf("unresolved anchor: field %s of %s", lt.field, lt.root)
+			return
+		}
+		e := newNumEngine(c, nil)
+		e.WrapLCong = true
+		e.AssumeNoWrap = sizeFns
+		e.PostCallHook = func(e *num.Engine, st *num.State, in *ssa.Call, f *ssa.Function) {
+			if isMS[f] || f == wsFn {
+				v := e.ExprOf(st, in)
+				st.Assume(v)
+				st.Assume(v.Neg().AddConst(c05MaxBytes))
+			}
+		}
+		e.RootInit = func(st *num.State) {
+			var x num.Lin
+			_, isPtr := recv.Type().Underlying().(*types.Pointer)
+			switch {
+			case lt.kind == "len" && isPtr:
+				x = e.PtrFieldLenExpr(st, recv, idx)
+			case lt.kind == "len":
+				x = e.StructFieldLenExpr(st, recv, idx)
+			case isPtr:
+				x = e.PtrFieldExpr(st, recv, idx)
+			default:
+				x = e.StructFieldExpr(st, recv, idx)
+			}
+			if !x.Bad {
+				st.AssumeEq(x.AddConst(-lt.limit))
+			} else {
+				out[i].fatal = fmt.Sprintf("cannot constrain %s of %s", lt.field, lt.root)
+			}
+		}
+		var rets []num.RootReturn
+		if msg := guarded(func() { rets = e.AnalyzeRoot(fn, num.RootOptions{ElemsNonNil: true}) }); msg != "" {
+			out[i].fatal = fmt.Sprintf("analysis panic in %s: %s", lt.root, msg)
+			return
+		}
+		for _, rr := range rets {
+			n := len(rr.Ret.Results)
+			if n == 0 || !rr.St.Feasible() {
+				continue
+			}
+			out[i].nret++
+			if e.IsNonNilResult(rr.St, rr.Ret.Results[n-1]) {
+				out[i].nerr++
+			}
+		}
+		out[i].ok = out[i].nret > out[i].nerr
+	})
+	for i, lt := range c08LimitTable {
+		if out[i].fatal != "" {
+			r.Fatalf("%s", out[i].fatal)
+			continue
+		}
+		fn := p.Func(lt.root)
+		r.Anchor("C08-LIMIT", lt.root+"/"+lt.field)
+		r.Check(out[i].ok, "C08-LIMIT", fmt.Sprintf("%s/%s-at-limit-%d-not-rejected", lt.root, lt.field, lt.limit), p.Pos(fn.Pos()),
+			fmt.Sprintf("with %s, %d of %d returns are not error returns", lt.what, out[i].nret-out[i].nerr, out[i].nret),
+			fmt.Sprintf("with %s every one of the %d returns carries a non-nil error: the value at the limit is rejected", lt.what, out[i].nret))
+	}
+	r.Floor("C08-LIMIT", 12)
 }
